@@ -40,11 +40,11 @@ func runC18(c *core.Ctx) {
 		return
 	}
 	allow := map[string]string{
-		"ssv/network/p2p.p2pNetwork.Peers":                      "pk parameter",
-		"ssv/network/p2p.p2pNetwork.Broadcast":                  "msg id pubkey",
-		"ssv/network/p2p.p2pNetwork.Unsubscribe":                "pk parameter",
-		"ssv/network/p2p.p2pNetwork.subscribe":                  "pk parameter",
-		"ssv/network/p2p.p2pNetwork.getSubsetOfPeers":           "sync",
+		"ssv/network/p2p.p2pNetwork.Peers":                           "pk parameter",
+		"ssv/network/p2p.p2pNetwork.Broadcast":                       "msg id pubkey",
+		"ssv/network/p2p.p2pNetwork.Unsubscribe":                     "pk parameter",
+		"ssv/network/p2p.p2pNetwork.subscribe":                       "pk parameter",
+		"ssv/network/p2p.p2pNetwork.getSubsetOfPeers":                "sync",
 		"ssv/message/validation.messageValidator.validateP2PMessage": "receiving side",
 	}
 	sites := whoMayCall(c, "C18-R1", "commons.ValidatorTopicID", mapOf(vt), nil, allow)
